@@ -333,7 +333,7 @@ pub fn gen_case(r: &mut Rng, interleave: bool) -> Case {
     } else {
         for _ in 0..n {
             let api = *r.pick(&['N', 'S', 'A', 'A', 'S']);
-            let fire = if api == 'N' || r.chance(1, 2) { 0 } else { 1 + r.below(12) };
+            let fire = if r.chance(1, 2) || (api == 'N' && r.chance(1, 2)) { 0 } else { 1 + r.below(12) };
             ops.push(Op::Run{api, fire, query: mkq(r)});
         }
     }
@@ -362,7 +362,35 @@ pub fn run_random(out: &mut Out, cfg: &Cfg, seed: u64, n: usize, interleave: boo
 }
 
 /// every flip point: for each program, solve_all and solve with the flag write at every tick 1..=T+1
+/// programs whose query has NO answer because a negated goal in tail position is provable: a search of the negated goal that
+/// is cut short must not turn into an answer
+fn not_tail_programs() -> Vec<(Vec<Rule>, Vec<Unifiable>)> {
+    let x = || logic_var!("$X"); let y = || logic_var!("$Y");
+    let fact = |f: &str, v: i64| Rule{head: scomplex!(atom!(f), SInteger(v)), body: Goal::Nil};
+    let call = |f: &str, a: Unifiable| Goal::ComplexGoal(scomplex!(atom!(f), a));
+    let unify = |a: Unifiable, b: Unifiable| Goal::BuiltInGoal(BuiltInPredicate::new("unify".into(), Some(vec![a, b])));
+    let not = |g: Goal| Goal::OperatorGoal(Operator::Not(vec![g]));
+    let q_rule = Rule{head: scomplex!(atom!("q"), x()), body: Goal::OperatorGoal(Operator::And(vec![unify(x(), atom!("yes")), not(call("g", y()))]))};
+    let g1 = Rule{head: scomplex!(atom!("g"), y()), body: call("h", y())};
+    let g2 = Rule{head: scomplex!(atom!("g"), y()), body: Goal::OperatorGoal(Operator::And(vec![call("h", y()), call("k", y())]))};
+    let top = Rule{head: scomplex!(atom!("top"), x()), body: call("q", x())};
+    vec![
+        (vec![q_rule.clone(), g1.clone(), fact("h", 1), fact("h", 2)], vec![atom!("q"), logic_var!("$A")]),
+        (vec![q_rule.clone(), g2.clone(), fact("h", 1), fact("h", 2), fact("k", 2)], vec![atom!("q"), logic_var!("$A")]),
+        (vec![top, q_rule, g2, fact("h", 1), fact("h", 2), fact("k", 2)], vec![atom!("top"), logic_var!("$A")]),
+    ]
+}
+
 pub fn run_all_ticks(out: &mut Out, cfg: &Cfg, seed: u64, n: usize) {
+    for (rules, query) in not_tail_programs() {
+        for k in 1..=14 {
+            for api in ['A', 'S', 'N'] {
+                let c = Case{rules: rules.clone(), ops: vec![Op::Run{api, fire: k, query: query.clone()}, Op::Run{api: 'A', fire: 0, query: query.clone()}]};
+                emit(out, cfg, &c);
+                out.stat("not_in_tail_position_cases", 1);
+            }
+        }
+    }
     let mut r = Rng::new(seed);
     for _ in 0..n {
         let base = gen_case(&mut r, false);
@@ -384,6 +412,55 @@ pub fn run_all_ticks(out: &mut Out, cfg: &Cfg, seed: u64, n: usize) {
             }
         }
     }
+}
+
+/// C05 across a time-out: a query that answered none while the stop flag was set stays exhausted when another query has
+/// been built since (the constructors clear the flag) — it answers none again and writes nothing
+pub fn run_stopped(out: &mut Out, cfg: &Cfg, seed: u64, n: usize) {
+    if !out.begin() { return; }
+    let id = out.case("timer-stopped");
+    out.impl_line(id, "stopped");
+    let mut ok = true; let mut msg = String::new();
+    let mut r = Rng::new(seed);
+    let mut tried = 0u64; let mut stopped_runs = 0u64;
+    for _ in 0..n {
+        let c = gen_case(&mut r, false);
+        if !safe(out, &c) { continue; }
+        let query = match &c.ops[0] { Op::Run{query, ..} => query.clone(), _ => continue };
+        for k in 1..=8usize {
+            start_query();
+            let mut kb = KnowledgeBase::new(); add_rules(&mut kb, c.rules.clone());
+            let res = catch_unwind(AssertUnwindSafe(|| {
+                let q = Rc::new(make_query(query.clone())); let sn = make_base_node(Rc::clone(&q), &kb);
+                verif_arm(k);
+                let mut reached_none = false;
+                for _ in 0..MAX_CALLS { if next_solution(Rc::clone(&sn)).is_none() { reached_none = true; break; } }
+                verif_arm(0);
+                let was_stopped = query_stopped();
+                out.cap.take();
+                if !reached_none { return (false, None); }
+                // another query is built: the stop flag is cleared, the counter reset
+                let _q2 = make_query(query.clone());
+                for j in 0..3 {
+                    let a = next_solution(Rc::clone(&sn));
+                    let o = out.cap.take();
+                    if a.is_some() { return (was_stopped, Some(format!("a query that had answered none {}answers again on request {} after another query was built", if was_stopped { "while it was stopped " } else { "" }, j + 1))); }
+                    if !o.is_empty() { return (was_stopped, Some(format!("an exhausted query writes `{}` on request {} after another query was built", o, j + 1))); }
+                }
+                (was_stopped, None)
+            }));
+            tried += 1;
+            match res {
+                Ok((st, None)) => { if st { stopped_runs += 1; } },
+                Ok((st, Some(m))) => { if st { stopped_runs += 1; } if ok { ok = false; msg = m; } },
+                Err(_) => { verif_arm(0); out.cap.take(); },
+            }
+        }
+    }
+    start_query();
+    out.stat("stopped_then_cleared_runs", tried);
+    out.stat("stopped_then_cleared_runs_with_the_flag_set", stopped_runs);
+    if cfg.want("C05") { out.oracle(id, "C05", ok, &msg); }
 }
 
 /// real timer, no hook: fast queries must never time out; a search of a few seconds must
